@@ -486,6 +486,9 @@ def rules(rep, facts):
         r1_inverse(rep, facts, g, a)
         r2_unescaped(rep, facts, g, a)
         r6_delegation(rep, facts)
+        # the reader side of every style: the string parsers accept exactly the ABNF string rules (shared with C01/R10)
+        from .rules_c01 import r10_regular_language
+        r10_regular_language(rep, g, a, only_prefix='strings::', rid='C10/R8')
     else:
         rep.notes.append(f'configuration {facts.config}: parser not compiled, reader-side comparisons skipped.')
 
